@@ -481,7 +481,7 @@ def what(job, rec, clause):
                                              job["A"], job["E"], job["b2s"], job["e2s"]))
     return "n=%d dtype=%s layout=%s ktype=%s src=%s A=%s" % (
         rec.get("n", -1), job.get("dtype", "float64"), job.get("layout", "C"), job.get("ktype", "int"),
-        job.get("src"), rec.get("A"))
+        job.get("src"), rec.get("A") if rec.get("n", 0) <= 20 else "(in the replay file) bounds x2=%s" % rec.get("b2s"))
 
 
 def run(ctx):
@@ -504,7 +504,7 @@ def run(ctx):
     recs = [_fill(j, r) for j, r in zip(jobs, pool.run_jobs(__name__, jobs, limit=10.0))]
     # the few large records are judged beside the many small ones
     big = [k for k, j in enumerate(jobs) if j["src"].startswith("big-")]
-    small = [k for k in range(len(jobs)) if k not in set(big)]
+    small = [k for k, j in enumerate(jobs) if not j["src"].startswith("big-")]
     parts = ctx.parallel([lambda: ctx.validate(*TRACE, [recs[k] for k in small], chunk=3000),
                           lambda: ctx.validate(*TRACE, [recs[k] for k in big], tag="Trace_KCore_big")], width=2)
     verdicts = [None] * len(jobs)
@@ -536,11 +536,15 @@ def run(ctx):
                 "integer), all drawn from the seeded RNG; scale regimes: %d near-threshold inputs of score_wu "
                 "(n in 4..9, two-level dyadic weights B*2^gap+E with gap 21..50, i.e. perturbations and bounds "
                 "1 ulp .. 5e-7 relative beside exact strengths on both sides, whole input times 2^-300..2^300, "
-                "exact in binary64, judged lexicographically on integers). "
+                "exact in binary64, judged lexicographically on integers) and %d large inputs (clique of 129..136 "
+                "nodes + path: kcore_bu and coreness; dense block + periphery digraphs on 160..176 nodes with "
+                "in+out degrees across 255, on 88..96 nodes for the coreness; dense weighted graphs on 130..144 "
+                "nodes with strengths beyond 255; thorough also undirected dense 140..156, a path peeled in > 127 "
+                "rounds, a clique of 257..262 nodes), six bounds each in the quick tier. "
                 "non-trivial = distinct (function, input) for which some bound > 0 leaves a core "
                 "that is neither empty nor all non-isolated nodes"
                 % ((("3..5", "a sample of 1200") if ctx.quick else ("3..5 (sample of 6000 on 6)", "every one"))
-                   + (sum(1 for j in jobs if j.get("near")),)))
+                   + (sum(1 for j in jobs if j.get("near")), len(big))))
     for j, r in zip(jobs, recs):
         if j["src"] == "model" and j["fn"] == "kcore_bu" and len(r["A"]) == 4 and any(r["sizes"][1:]):
             ctx.add_sample("model-input", dict(job=j, record=r))
